@@ -59,6 +59,7 @@ def run(ctx):
     r05a(ctx)
     r05g(ctx)
     r05h(ctx)
+    r05j(ctx)
 
 
 def r05h(ctx):
@@ -103,6 +104,47 @@ def r05h(ctx):
             else:
                 ctx.ok('R05h', key, 'every accepting exit holds 0 < a < p%s' % (' (through the element test it delegates to)' if delegated else ''), f)
     ctx.floor('R05h', n, 6)
+
+
+def r05j(ctx):
+    """the group and the common key are public inputs of the two sigma-protocol verifiers every card operation of the
+    discrete-log encoding rests on (CP_Verify: masking, re-masking and decryption-share proofs; OR_Verify): in every variant
+    of their bool parameters each of p, q, g, h is an input of a check that guards acceptance.  R05b cannot see this -- it
+    follows parameters and wire values and folds all members into one root -- so the per-variant inventory is used: a member
+    that is bound only on the fixed-base path (where it is compared with the base argument) is unbound on the other path
+    as soon as it leaves the challenge hash."""
+    prog = ctx.prog
+    n = 0
+    for q in ('BarnettSmartVTMF_dlog::CP_Verify', 'BarnettSmartVTMF_dlog::OR_Verify'):
+        for f in prog.by_q.get(q, []):
+            if not f.get('body'):
+                continue
+            inv, hashes = inventory.inventory(ctx, f)
+            variants = sorted(set(l for labs in inv.values() for l in labs))
+            for v in variants:
+                bound = set()
+                for fp, labs in inv.items():
+                    if v not in labs:
+                        continue
+                    body = fp[1:] if fp[0] == '@loop' else fp
+                    kk = invcheck.kind_of(fp).split(':')[-1]
+                    if kk == 'if':
+                        bound |= leaves_of_fp(body[1])
+                        body = body[2]
+                        kk = body[0].split(':')[-1]
+                    if kk in ('invertible', 'range'):
+                        continue
+                    bound |= leaves_of_fp(body)
+                n += 1
+                missing = [m for m in ('this.p', 'this.q', 'this.g', 'this.h') if m not in bound]
+                key = 'R05j:%s:%s' % (f['q'], v or 'all')
+                if missing:
+                    ctx.bad('R05j', key, 'in the variant %s the public input%s %s no longer influence%s any check that guards acceptance: a proof made under one '
+                            'common key / group verifies under another' % (v or '(all)', 's' if len(missing) > 1 else '', ', '.join(x[5:] for x in missing),
+                                                                       '' if len(missing) > 1 else 's'), f)
+                else:
+                    ctx.ok('R05j', key, 'p, q, g and the common key h are inputs of checks guarding acceptance', f)
+    ctx.floor('R05j', n, 4)
 
 
 def bound_leaves(ctx, f):
